@@ -3,6 +3,7 @@ package main
 import (
 	"fmt"
 	"math/rand"
+	"regexp"
 	"strconv"
 	"strings"
 	"time"
@@ -333,6 +334,19 @@ func propSetTimeRangeSeq(args []string) string {
 				}
 			}
 		}
+		// the statement is handed on as text (continuous queries are stored and shipped printed): the printed
+		// condition, parsed again, is the same tree (round-3 seeded change C18-2 dropped the parentheses around
+		// an OR, so that the text regrouped). Conditions with a signed reference / call / parenthesis are left
+		// out: their printing is the open finding negated-operand-printed-without-grouping of C02/C03.
+		if printed := c.String(); !signedOperand.MatchString(printed) && !signedOperand.MatchString(text) {
+			back, rerr := influxql.ParseExpr(printed)
+			if rerr != nil {
+				return fmt.Sprintf("after call %d on %q the condition prints as %q, which does not parse: %v", i+1, text, printed, rerr)
+			}
+			if a, b := exprSkeleton(c), exprSkeleton(back); a != b {
+				return fmt.Sprintf("after call %d on %q the condition prints as %q, which parses to another grouping: %s vs %s", i+1, text, printed, a, b)
+			}
+		}
 		sz := exprSize(c)
 		if i == 0 {
 			firstSize = sz
@@ -373,6 +387,26 @@ func propSetTimeRangeSeq(args []string) string {
 		}
 	}
 	return ""
+}
+
+var signedOperand = regexp.MustCompile(`[-+][ \t]*[A-Za-z_("]|[-+]1(\.0+)? \*`)
+
+// exprSkeleton: operators, parentheses and calls of an expression; every leaf is `_` (a folded instant is a
+// TimeLiteral in the tree and a string once printed and parsed: same leaf).
+func exprSkeleton(e influxql.Expr) string {
+	switch e := e.(type) {
+	case *influxql.BinaryExpr:
+		return "(" + exprSkeleton(e.LHS) + " " + e.Op.String() + " " + exprSkeleton(e.RHS) + ")"
+	case *influxql.ParenExpr:
+		return "[" + exprSkeleton(e.Expr) + "]"
+	case *influxql.Call:
+		parts := make([]string, len(e.Args))
+		for i, a := range e.Args {
+			parts[i] = exprSkeleton(a)
+		}
+		return e.Name + "<" + strings.Join(parts, ",") + ">"
+	}
+	return "_"
 }
 
 // rewrittenTopIsOr: the condition, with its time comparisons replaced by true as
